@@ -5,7 +5,10 @@ import numpy as np
 
 from harness import circgen as cg, logicsim_corr as lc, simcheck as sk, wavecheck as wk, waveoracle as wo, wavesim_corr as wc, launch_corr
 
-THEOREMS = ['C06_gpu_threads_cover', 'C06_lane_independent', 'C06_release_order_irrelevant', 'C06_strip_forks_irrelevant']
+THEOREMS = ['C06_gpu_threads_cover', 'C06_lane_independent', 'C06_release_order_irrelevant', 'C06_strip_forks_irrelevant',
+            'C06_cycles_strip_irrelevant',
+            'C06_c_reuse_irrelevant', 'C06_c_reuse_same_interface', 'C06_end_to_end_reuse', 'C06_options_irrelevant_spec',
+            'C06_options_irrelevant']
 COLS = [3, 4, 5, 6, 7, 10]
 
 
